@@ -401,3 +401,107 @@ Proof.
 Qed.
 
 End Apply.
+
+(* ---- Part 3: C06 for a directly applied modifier ------------------------------------------------------------- *)
+Section AfterModifier.
+Variable E : menv.
+
+Lemma replay_groups_sum : forall evs c, c_groups (replay evs c) = group_events_sum evs (c_groups c).
+Proof.
+  induction evs as [|e evs IH]; intro c; [reflexivity|].
+  cbn [replay fold_left group_events_sum]. fold (replay evs (apply_event c e)). rewrite IH.
+  f_equal. destruct e; destruct c; reflexivity.
+Qed.
+
+Lemma erase_groups : forall a b, erase a = erase b -> c_groups a = c_groups b.
+Proof. intros a b H. apply erase_same in H. destruct H as [_ [_ [_ [_ [_ [_ [Hg _]]]]]]]. exact Hg. Qed.
+
+Lemma erase_qualifies : forall a b g, erase a = erase b -> qualifies E g a = qualifies E g b.
+Proof.
+  intros a b g H. unfold qualifies, is_active, qview.
+  assert (Hs : c_status a = c_status b) by (apply erase_same in H; tauto).
+  assert (Hq : erase (with_groups a []) = erase (with_groups b [])).
+  { destruct a, b. unfold erase, with_urns, with_groups in *. cbn in *. inversion H; subst. reflexivity. }
+  rewrite Hs, Hq. reflexivity.
+Qed.
+
+(* an effective modifier: membership is right afterwards, a non-active contact is in no group at all, and the
+   groups-changed events add up to the membership change *)
+Theorem after_modifier : forall fresh m c c' evs,
+  wf_contact E c -> mod_wf E m ->
+  apply E fresh m c = (c', evs, true) ->
+  Consistent E c'
+  /\ (is_active c' = false -> c_groups c' = [])
+  /\ group_events_sum evs (c_groups c) = c_groups c'
+  /\ wf_contact E c'.
+Proof.
+  intros fresh m c c' evs Hwf Hm H.
+  assert (Hrep := replay_modifier E fresh m c c' evs true Hwf Hm H).
+  unfold apply in H. destruct (apply_inner E fresh m c) as [[c1 evs1] b1] eqn:HI.
+  destruct (apply_inner_spec E fresh m c c1 evs1 b1 Hwf Hm HI) as [_ [_ [_ [_ Hwf1]]]].
+  destruct b1; [|inversion H].
+  destruct (reevaluate_groups E c1) as [c2 evs2] eqn:HR. inversion H; subst c' evs.
+  destruct (reevaluate_groups_spec E c1 c2 evs2 Hwf1 HR) as [G1 [G2 [G3 [G4 _]]]].
+  split; [exact G3|]. split.
+  - intro Hact. apply G4. rewrite G1 in Hact. destruct c1; exact Hact.
+  - split; [|exact G2]. rewrite <- replay_groups_sum. apply erase_groups. exact Hrep.
+Qed.
+
+(* a modifier that changes nothing leaves membership as it was: right if it was right *)
+Theorem after_noop_modifier : forall fresh m c c' evs,
+  wf_contact E c -> mod_wf E m ->
+  apply E fresh m c = (c', evs, false) ->
+  erase c' = erase c /\ (Consistent E c -> Consistent E c') /\ wf_contact E c'.
+Proof.
+  intros fresh m c c' evs Hwf Hm H. unfold apply in H.
+  destruct (apply_inner E fresh m c) as [[c1 evs1] b1] eqn:HI.
+  destruct (apply_inner_spec E fresh m c c1 evs1 b1 Hwf Hm HI) as [_ [_ [H3 [_ Hwf1]]]].
+  destruct b1; [destruct (reevaluate_groups E c1); inversion H|]. inversion H; subst c' evs.
+  specialize (H3 eq_refl). split; [exact H3|]. split; [|exact Hwf1].
+  intros HC g Hall Hu. rewrite (erase_groups _ _ H3), (erase_qualifies _ _ g H3). apply HC; assumption.
+Qed.
+
+End AfterModifier.
+
+(* ---- examples: the hypotheses are satisfiable, and the no-op clause is false without its premise ------------ *)
+Definition ex_env : menv :=
+  {| max_field_chars := 640;
+     urn_normalize := fun u => u; urn_valid := fun _ => true; urn_identity := fun u => u; urn_scheme := fun _ => 1;
+     urn_set_channel := fun _ u => u; tel_scheme := 1;
+     chan_can_send := fun _ => true; chan_supports := fun _ _ => true;
+     field_types := [FText];
+     parse_num := fun _ => None; parse_dt := fun _ => None; parse_loc := fun _ _ _ => ([], [], []);
+     all_groups := [0; 1]; uses_query := fun g => N.eqb g 1;
+     matches := fun _ c => text_eqb (c_name c) [98; 111; 98] |}.
+
+Definition ex_contact (name : text) (gs : list N) : contact :=
+  {| c_name := name; c_lang := 1; c_status := Active; c_tz := None; c_last_seen := None;
+     c_urns := []; c_groups := gs; c_fields := []; c_ticket := None |}.
+
+Example ex_wf : wf_contact ex_env (ex_contact [106] [0; 1]) /\ mod_wf ex_env (MGroups [0] GAdd)
+                /\ max_field_chars ex_env <> 0.
+Proof.
+  split; [split|split].
+  - repeat constructor; cbn; intuition discriminate.
+  - intros g [H|[H|[]]]; subst; cbn; tauto.
+  - intros g [H|[]]; subst; cbn; tauto.
+  - discriminate.
+Qed.
+
+(* the modifier changes the name to "bob": the contact joins query group 1, and the events replay *)
+Example ex_effective :
+  apply ex_env 7 (MName [98; 111; 98]) (ex_contact [106] [0])
+  = (ex_contact [98; 111; 98] [0; 1], [ENameChanged [98; 111; 98]; EGroupsChanged [1] []], true).
+Proof. reflexivity. Qed.
+
+(* F6b: contact "j" stored as a member of query group 1 (name = "bob"); a language modifier that changes nothing
+   reports false, emits nothing, and the wrong membership stays *)
+Theorem after_noop_modifier_refuted :
+  exists E fresh m c c' evs,
+    wf_contact E c /\ mod_wf E m /\ apply E fresh m c = (c', evs, false) /\ ~ Consistent E c'.
+Proof.
+  exists ex_env, 7, (MLanguage 1), (ex_contact [106] [0; 1]), (ex_contact [106] [0; 1]), [].
+  split; [exact (proj1 ex_wf)|]. split; [exact I|]. split; [reflexivity|].
+  intro HC. specialize (HC 1 (or_intror (or_introl eq_refl)) eq_refl). cbn in HC.
+  destruct HC as [HC _]. specialize (HC (or_intror (or_introl eq_refl))). discriminate.
+Qed.
